@@ -18,7 +18,7 @@ theorem item_call_needs_equal {t u : HType} (h : u ≠ t) :
     applyOk "append" [.array t, u] (.array t) = false ∧ applyOk "add" [.set t, u] (.set t) = false ∧
     applyOk "remove" [.set t, u] (.set t) = false := by
   have h' : ¬ t = u := fun e => h e.symm
-  simp [applyOk, signatures, unifyAll, unify, bindVar, h']
+  simp [applyOk, signatures, unifyAll, unify, bindVar, h', vectorised, isNum]
 
 theorem array_contains_needs_equal {t u : HType} (h : u ≠ t) :
     applyOk "contains" [.array t, u] .bool = false := by
@@ -43,5 +43,21 @@ theorem dict_key_needs_equal {k v u : HType} (h : u ≠ k) :
     applyOk "get" [.dict k v, u] v = false ∧ applyOk "index" [.dict k v, u] v = false := by
   have h' : ¬ k = u := fun e => h e.symm
   constructor <;> simp [applyOk, signatures, unifyAll, unify, bindVar, lookupVar, h']
+
+/-- the vectorised arithmetic of `ArrayFunctions.scala`, all three shapes: `**` returns `array<float64>` whatever the numeric
+element type, `+ - * // %` the element type, `/` float64 except on float32 -/
+theorem vectorised_ok (t : HType) (h : isNum t = true) :
+    applyOk "pow" [t, .array t] (.array .float64) = true ∧ applyOk "pow" [.array t, t] (.array .float64) = true ∧
+    applyOk "pow" [.array t, .array t] (.array .float64) = true ∧
+    applyOk "add" [t, .array t] (.array t) = true ∧ applyOk "sub" [.array t, t] (.array t) = true ∧
+    applyOk "mul" [.array t, .array t] (.array t) = true ∧ applyOk "floordiv" [t, .array t] (.array t) = true ∧
+    applyOk "mod" [.array t, t] (.array t) = true ∧
+    applyOk "div" [t, .array t] (.array (if t = .float32 then .float32 else .float64)) = true := by
+  cases t <;> simp [isNum] at h <;> decide
+
+/-- a reflected `**` that reports the element type (the seeded `ArrayNumericExpression.__rpow__`) matches no implementation -/
+theorem vectorised_pow_not_elementwise (t : HType) (h : isNum t = true) (hne : t ≠ .float64) :
+    applyOk "pow" [t, .array t] (.array t) = false ∧ applyOk "pow" [.array t, t] (.array t) = false := by
+  cases t <;> simp [isNum] at h <;> first | (exact absurd rfl hne) | decide
 
 end HailVerif.FnRegistry
